@@ -61,6 +61,13 @@ def unit_quats(rng, n):
 
 
 def stamps(rng, n, cls):
+    u = rng.random()
+    if u < .06:
+        return np.arange(n, dtype=float)  # frame counters used as stamps: exactly 0.0, 1.0, ...
+    if u < .1:
+        return float(rng.integers(0, 1000)) + np.arange(n) * float(rng.integers(1, 5))  # whole seconds
+    if u < .13:
+        return np.concatenate([[0.0], np.cumsum(rng.random(n - 1) * 0.1 + 1e-6)]) if n > 1 else np.array([0.0])
     if cls == "epoch":
         t0 = 1.5e9 + float(rng.integers(0, 10**8))
         dt = rng.integers(1, 10**9, size=n) * 1e-9 + rng.integers(0, 3, size=n)
